@@ -65,6 +65,15 @@ class Extract(Harness):
         elif lay == 'ssh-ed25519-cert':
             ca, exp_ca_len = ca_blob(self.ca, self.calen)
             blob = S(b'ssh-ed25519-cert-v01@openssh.com') + S(zx.fresh_bytes('nonce', 4)) + S(mp_bytes(32, 'pk')) + cert_tail(ca)
+        elif lay.startswith('ecdsa-nistp') and lay.endswith('-cert'):
+            # RFC 5656 / PROTOCOL.certkeys: type, nonce, curve name, Q (0x04 || X || Y), then the common certificate fields
+            curve = lay[len('ecdsa-'):-len('-cert')]
+            ca, exp_ca_len = ca_blob(self.ca, self.calen)
+            blob = (S(('ecdsa-sha2-%s-cert-v01@openssh.com' % curve).encode()) + S(zx.fresh_bytes('nonce', 4)) + S(curve.encode()) + S(b'\x04' + mp_bytes(2 * self.nlen, 'q'))
+                    + cert_tail(ca))
+        elif lay.startswith('ecdsa-nistp'):
+            curve = lay[len('ecdsa-'):]
+            blob = S(('ecdsa-sha2-%s' % curve).encode()) + S(curve.encode()) + S(b'\x04' + mp_bytes(2 * self.nlen, 'q'))
         else:
             raise ValueError(lay)
         return {'blob': blob, 'f': zx.fresh_bytes('f', 5), 'sig': zx.fresh_bytes('s', 6), 'exp_ca_len': exp_ca_len}
@@ -89,10 +98,14 @@ class Extract(Harness):
             return
         yield 'blob-returned-unchanged', obs['blob'] == inp['blob']
         n = 32 if 'ed25519' in self.layout else self.nlen
-        yield 'key-size', obs['size'] == self.adjust(n)
+        if self.layout.startswith('ecdsa-'):
+            # the size of an ECDSA key is the size of its curve (a coordinate of n bytes: 256, 384, 521 bits)
+            yield 'key-size', obs['size'] == {32: 256, 48: 384, 66: 521}[self.nlen]
+        else:
+            yield 'key-size', obs['size'] == self.adjust(n)
         if self.ca:
             yield 'ca-type', obs['ca_type'] == self.ca
-            yield 'ca-size', obs['ca_size'] == self.adjust(inp['exp_ca_len'])
+            yield 'ca-size', obs['ca_size'] == (521 if self.ca == 'ecdsa-sha2-nistp521' else self.adjust(inp['exp_ca_len']))
         else:
             yield 'no-ca', obs['ca_type'] == '' and obs['ca_size'] == 0
         # on the property's 64-bit grid (modulus = b/8 + 1 bytes with a leading zero) the reported size is b
@@ -595,6 +608,10 @@ def tasks(tier):
         for cl in calens:
             T.append(Extract('ssh-rsa-cert', 257, ca, cl))
             T.append(Extract('ssh-ed25519-cert', 32, ca, cl))
+    for curve, n in (('nistp256', 32), ('nistp384', 48), ('nistp521', 66)):
+        T.append(Extract('ecdsa-' + curve, n))
+        for ca, cl in ((('ssh-ed25519', 32), ('ecdsa-sha2-' + curve, n)) if q else (('ssh-rsa', 513), ('ssh-ed25519', 32), ('ecdsa-sha2-nistp256', 32), ('ecdsa-sha2-' + curve, n))):
+            T.append(Extract('ecdsa-' + curve + '-cert', n, ca, cl))
     if not q:
         for n in list(range(65, 1026, 64)) + [2049]:
             T.append(Extract('ssh-rsa-cert', n, 'ssh-rsa', 257))
